@@ -40,7 +40,7 @@ MC = os.path.join(pool.BUILD, "release", "mc_atoms")
 QUICK = {"A_SS": 3, "A_SD": 3, "A_SL": 3, "A_LL": 3, "A_LL2": 3, "A_DD": 3, "A_PI": 3,
          "B_SD_DS": 2, "B_LS_SL": 2, "B_SS_SS": 2, "C_SSS": 2, "C_SLD": 1, "D_read": 2}
 THOROUGH = {"A_SS": 99, "A_SD": 99, "A_SL": 99, "A_LL": 99, "A_LL2": 99, "A_DD": 99, "A_PI": 99,
-            "B_SD_DS": 3, "B_LS_SL": 3, "B_SS_SS": 3, "C_SSS": 3, "C_SLD": 2, "D_read": 3}
+            "B_SD_DS": 4, "B_LS_SL": 4, "B_SS_SS": 4, "C_SSS": 3, "C_SLD": 3, "D_read": 4}
 
 
 def bound_text(tier):
